@@ -521,7 +521,8 @@ func (c *Ctx) magicNumberConds(f *ssa.Function, depth int, seen map[*ssa.Functio
 				if !isC || (k >= -1 && k <= 1) {
 					continue
 				}
-				bt, ok := pair[0].Type().Underlying().(*types.Basic)
+				// a count / index / length is a plain int; a named integer type is an enumeration
+				bt, ok := pair[0].Type().(*types.Basic)
 				if !ok || bt.Kind() != types.Int {
 					continue
 				}
@@ -1269,7 +1270,7 @@ func rulePXIsNull(c *Ctx) []Obligation {
 					}
 				}
 				if pk[0] {
-					dotT, dk := and3(not3(not3(fact3(F, `eq(".",`+hint+`.`+c.ff("defname")+`)`))), fact3(F, hint+"."+c.ff("defalias")))
+					dotT, dk := c.dotFact(F, hint)
 					if hf := fact3(F, "has(p0."+c.ff("hints")+","+path+")"); hf[1] && !hf[0] {
 						dotT, dk = false, true
 					}
@@ -1538,7 +1539,9 @@ func rulePXTokenRender(c *Ctx, part string) []Obligation {
 				continue
 			}
 			if d3[0] {
-				t.note("`default` is written followed by a colon", okOut && len(out) == 2 && out[1].Val == nil && out[1].Lit == ":", "path %s writes %s", traceOf(p), segsString(out))
+				// the content is known to be "default" here, so the literal "default:" is the same text
+				lit := len(out) == 1 && out[0].Val == nil && out[0].Lit == "default:"
+				t.note("`default` is written followed by a colon", lit || (okOut && len(out) == 2 && out[1].Val == nil && out[1].Lit == ":"), "path %s writes %s", traceOf(p), segsString(out))
 			} else {
 				t.note(typ+" token writes exactly its text", okOut && len(out) == 1, "path %s writes %s", traceOf(p), segsString(out))
 			}
@@ -1649,7 +1652,10 @@ func (c *Ctx) statementForm(f *ssa.Function) *buildResult {
 					res.ok, res.why = false, "stores to "+e.Recv.String()
 					return res
 				}
-				nst++
+				// a later store overwrites an earlier one; its value (with nested appends flattened by
+				// the engine) is the receiver's final content
+				nst = 1
+				items = nil
 				v := e.Args[0]
 				if v.Op != "append" || len(v.A) != 2 || v.A[0].String() != "recv" {
 					res.ok, res.why = false, "the receiver is assigned "+p.Deep(v)+" instead of append(*s, …)"
@@ -3006,7 +3012,8 @@ func rulePXLocalDot(c *Ctx) []Obligation {
 			}
 			for _, oc := range outs {
 				F := oc.F
-				dotT, dk := and3(fact3(F, `eq(".",`+hint+`.`+nameF+`)`), fact3(F, hint+"."+aliasF))
+				dotT, dk := c.dotFact(F, hint)
+				_, _ = nameF, aliasF
 				if hf := fact3(F, "has(recv."+hints+",p0)"); hf[1] && !hf[0] {
 					dotT, dk = false, true
 				}
@@ -3167,4 +3174,19 @@ func structFieldNames(t types.Type) []string {
 		out = append(out, st.Field(i).Name())
 	}
 	return out
+}
+
+// dotFact: is the hint entry known to be (or not to be) the dot-import entry {name: ".", alias: true}?
+// Either spelled field by field or as one comparison of the whole struct value.
+func (c *Ctx) dotFact(F Facts, hint string) (val, known bool) {
+	nameF, aliasF := c.ff("defname"), c.ff("defalias")
+	if v, k := and3(fact3(F, `eq(".",`+hint+`.`+nameF+`)`), fact3(F, hint+"."+aliasF)); k {
+		return v, true
+	}
+	fields := []string{aliasF + ":true", nameF + `:"."`}
+	sort.Strings(fields)
+	if w := fact3(F, eqAtom(hint, "{"+strings.Join(fields, ",")+"}")); w[1] {
+		return w[0], true
+	}
+	return false, false
 }
